@@ -758,7 +758,7 @@ func (e *Engine) findIndicesBoundedBacktracker(haystack []byte) (int, int, bool)
 	if !e.boundedBacktracker.CanHandle(len(haystack)) {
 		// Bidirectional DFA: O(n) vs PikeVM's O(n*states) for large inputs
 		// Use longest variant to preserve greedy semantics for BoundedBacktracker patterns.
-		if e.dfa != nil && e.reverseDFA != nil {
+		if e.dfa != nil && e.reverseDFA != nil && !e.longest {
 			return e.findIndicesBidirectionalDFALongest(haystack, 0)
 		}
 		return e.pikevm.SearchWithSlotTable(haystack, nfa.SearchModeFind)
@@ -796,7 +796,7 @@ func (e *Engine) findIndicesBoundedBacktrackerAt(haystack []byte, at int) (int, 
 		// searches must be ASCII, not just a prefix of it.
 		if simd.IsASCII(remaining) {
 			if !e.asciiBoundedBacktracker.CanHandle(len(remaining)) {
-				if e.dfa != nil && e.reverseDFA != nil {
+				if e.dfa != nil && e.reverseDFA != nil && !e.longest {
 					return e.findIndicesBidirectionalDFALongest(haystack, at)
 				}
 				return e.pikevm.SearchWithSlotTableAt(haystack, at, nfa.SearchModeFind)
@@ -810,7 +810,7 @@ func (e *Engine) findIndicesBoundedBacktrackerAt(haystack []byte, at int) (int, 
 	}
 
 	if !e.boundedBacktracker.CanHandle(len(remaining)) {
-		if e.dfa != nil && e.reverseDFA != nil {
+		if e.dfa != nil && e.reverseDFA != nil && !e.longest {
 			return e.findIndicesBidirectionalDFALongest(haystack, at)
 		}
 		return e.findIndicesNFAAt(haystack, at)
@@ -1299,12 +1299,12 @@ func (e *Engine) findIndicesBoundedBacktrackerAtWithState(haystack []byte, at in
 		if simd.IsASCII(remaining) {
 			if !e.asciiBoundedBacktracker.CanHandle(len(remaining)) {
 				// Bidirectional DFA: O(n) vs PikeVM's O(n*states)
-				if e.dfa != nil && e.reverseDFA != nil {
+				if e.dfa != nil && e.reverseDFA != nil && !e.longest {
 					return e.findIndicesBidirectionalDFALongest(haystack, at, state)
 				}
 				// V12 Windowed BoundedBacktracker for ASCII path
 				maxInput := e.asciiBoundedBacktracker.MaxInputSize()
-				if maxInput > 0 && len(remaining) > maxInput {
+				if maxInput > 0 && len(remaining) > maxInput && !e.longest {
 					window := remaining[:maxInput]
 					start, end, found := e.asciiBoundedBacktracker.Search(window)
 					if found {
@@ -1323,12 +1323,12 @@ func (e *Engine) findIndicesBoundedBacktrackerAtWithState(haystack []byte, at in
 
 	if !e.boundedBacktracker.CanHandle(len(remaining)) {
 		// Bidirectional DFA: O(n) vs PikeVM's O(n*states) for large inputs
-		if e.dfa != nil && e.reverseDFA != nil {
+		if e.dfa != nil && e.reverseDFA != nil && !e.longest {
 			return e.findIndicesBidirectionalDFALongest(haystack, at, state)
 		}
 		// V12 Windowed BoundedBacktracker fallback
 		maxInput := e.boundedBacktracker.MaxInputSize()
-		if maxInput > 0 && len(remaining) > maxInput {
+		if maxInput > 0 && len(remaining) > maxInput && !e.longest {
 			window := remaining[:maxInput]
 			start, end, found := e.boundedBacktracker.SearchWithState(window, state.backtracker)
 			if found {
